@@ -134,6 +134,7 @@ def find_entity(project, x):
 
 
 REC = []
+FIRST, LOGGED, SEEN_CALLS = {}, set(), [0]
 
 
 def _install_recorder():
@@ -158,6 +159,13 @@ def _install_recorder():
                 item._verif_serial = serial
             except Exception:
                 pass
+        # a repeated call that answers as before adds nothing the model could reject (Stable holds trivially): log the first
+        # call per entity and every later call whose answer differs
+        first_ret = FIRST.setdefault(serial, ret)
+        SEEN_CALLS[0] += 1
+        if SEEN_CALLS[0] > 1 and first_ret == ret and serial in LOGGED:
+            return ret
+        LOGGED.add(serial)
         base, _, num = ret.partition("~")
         REC.append({"e": serial, "dir": item.get_dir() or "none", "raw": item.name or "", "key": stem_key(item.name or ""),
                     "ret": ret, "base": base, "n": int(num) if num else 1})
@@ -173,7 +181,7 @@ def evaluate(case):
     problems = []
     os.environ["FORD_VERIF_TRACE"] = "1"
     _install_recorder()
-    REC.clear()
+    REC.clear(); FIRST.clear(); LOGGED.clear(); SEEN_CALLS[0] = 0
     with fordrun.tempdir() as d:
         fordrun.write_files(os.path.join(d, "src"), files)
         ok, out, err = site.run_inproc(d, {"incl_src": True, "display": ["public", "private", "protected"], "search": False})
@@ -338,10 +346,12 @@ def run(tier, seed, ck: Check):
                 if e_["e"] in seen and rep is None:
                     rep = t
                 seen.add(e_["e"])
-            if j % 2 == 0 or rep is None:
+            if j % 2 == 0:
                 r2["events"][0]["n"] += 1                                # first stem numbered differently from the model
-            else:
+            elif rep is not None:
                 r2["events"][rep]["ret"] += "x"                          # a later call for the same entity answered differently
+            else:
+                r2["events"].append(dict(r2["events"][0], ret=r2["events"][0]["ret"] + "x"))   # (repeated calls that answer as before are not logged)
             corrupted.append(r2)
         if corrupted:
             cv = validate_traces(corrupted, dev)
